@@ -161,7 +161,7 @@ theorem sites_blockMapEnd : Gen.UefiTotalAsmVisitors.sites_blockMapEnd =
 
 theorem guards_Assemble_Visit : Gen.UefiTotalAsmVisitors.guards_Assemble_Visit =
     ["if _", "if _ != nil", "if _ != nil", "if len(_.Files) == 0", "if _.Length < _",
-     "if len(_.Blocks) == 0", "if _.DataOffset != _", "if _ == 0", "if _ != 1",
+     "if len(_.Blocks) == 0", "if _.DataOffset > _", "if _.DataOffset != _", "if _ == 0", "if _ != 1",
      "if _ >= 8 && _ < uefi.FileHeaderMinLength", "if _ != _", "if _ != nil", "if _ != nil", "if _ != nil",
      "if _.Length < _ && !_.Resizable", "if _.Length < _", "if _.Blocks[0].Size == 0", "if _.Length > _",
      "if _.useFFS3 && _.FileSystemGUID == *uefi.FFS2", "if uint64(_.HeaderLen) > uint64(len(_))",
